@@ -9,7 +9,7 @@ def sflowLine (f d : String) : String :=
   let filter := if f == "-" then [] else (f.splitOn ",").filterMap String.toNat?
   let bs := if d == "-" then [] else unhex d
   match decode filter bs with
-  | .ok dg => (Json.datagramJson dg).getD "jsonerr"
+  | .ok dg => ((Json.sflowJson? dg).map Json.text).getD "jsonerr"
   | .err e => "err " ++ Json.errClass e
   | .panic => "panic"
   | .fuel => "fuel"
@@ -17,7 +17,7 @@ def sflowLine (f d : String) : String :=
 def dissectLine (p h : String) : String :=
   let bs := if h == "-" then [] else unhex h
   match Packet.dissect bs p.toNat! with
-  | .ok pk => Json.pktJson pk
+  | .ok pk => Json.text (Spec.render (Json.pktTree pk))
   | .err e => "err " ++ Json.errClass e
   | .panic => "panic"
   | .fuel => "fuel"
